@@ -1,5 +1,6 @@
 /-
-Helper lemmas for Props/C14.lean: what one pass of `attend_subscriptions` can do, which subscriptions a step leaves.
+Helper lemmas for Props/C14.lean: what one pass of `attend_subscriptions` can do (with callbacks that raise or
+re-enter IF.LDM.4), which subscriptions a step leaves.
 -/
 import FlexModel.Ldm.Subs
 namespace FlexModel.Ldm
@@ -13,15 +14,18 @@ def intervalElapsed (s : SSt) (x : Sub) : Bool :=
   | some n => !decide (last + n > now)
   | none => true
 
+theorem contains_iff_mem (l : List Sub) (x : Sub) : l.contains x = true ↔ x ∈ l := by
+  simp
+
 /-- everything `attendOne` can do -/
 theorem attendOne_spec (s : SSt) (x : Sub) (s1 : SSt) (cs : List Call) (d : Bool)
     (h : attendOne s x = .ok (s1, cs, d)) :
     s1.core = s.core ∧ s1.subs = s.subs ∧
     (d = true ↔ s.core.consumers.contains x.req.app = false) ∧
     (∀ c ∈ cs, cs = [c] ∧ c.cb = x.cb ∧ c.app = x.req.app ∧ s.core.consumers.contains x.req.app = true ∧
-        subMatches (s.core.db.rows.map (·.2)) x.req = .ok (some c.objs) ∧ intervalElapsed s x = true) ∧
+        subMatches (s.core.db.rows.map (·.2)) x.req = .ok (some c.objs) ∧ intervalElapsed s x = true ∧ x ∈ s.subs) ∧
     (cs = [] → s.core.consumers.contains x.req.app = true →
-        subMatches (s.core.db.rows.map (·.2)) x.req = .ok none ∨ intervalElapsed s x = false) := by
+        subMatches (s.core.db.rows.map (·.2)) x.req = .ok none ∨ intervalElapsed s x = false ∨ x ∉ s.subs) := by
   unfold attendOne at h
   by_cases hc : s.core.consumers.contains x.req.app = true
   · simp only [hc, Bool.not_true, Bool.false_eq_true, if_false] at h
@@ -37,59 +41,68 @@ theorem attendOne_spec (s : SSt) (x : Sub) (s1 : SSt) (cs : List Call) (d : Bool
         refine ⟨rfl, rfl, (by constructor <;> intro hh <;> simp_all), by simp, fun _ _ => Or.inl rfl⟩
       | some objs =>
         simp only at h
-        cases hl : lcGet s.lastChecked x with
-        | none =>
-          simp only [hl] at h
-          cases hn : x.req.notify with
+        by_cases hmem : s.subs.contains x = true
+        · have hxm : x ∈ s.subs := (contains_iff_mem _ _).mp hmem
+          simp only [hmem, Bool.not_true, Bool.false_eq_true, if_false] at h
+          cases hl : lcGet s.lastChecked x with
           | none =>
-            simp only [hn, Bool.false_eq_true, if_false, pure, Except.pure] at h
-            injection h with h; injection h with h1 h2; injection h2 with h2 h3
-            subst h1; subst h2; subst h3
-            refine ⟨rfl, rfl, (by constructor <;> intro hh <;> simp_all), ?_, by simp⟩
-            intro c hc'
-            simp at hc'; subst hc'
-            exact ⟨rfl, rfl, rfl, hc, rfl, by simp [intervalElapsed, hn]⟩
-          | some n =>
-            simp only [hn] at h
-            by_cases hg : nowIts s.core.utcMs + n > nowIts s.core.utcMs
-            · simp only [hg, decide_true, if_true, pure, Except.pure] at h
-              injection h with h; injection h with h1 h2; injection h2 with h2 h3
-              subst h1; subst h2; subst h3
-              refine ⟨rfl, rfl, (by constructor <;> intro hh <;> simp_all), by simp, fun _ _ => Or.inr ?_⟩
-              simp [intervalElapsed, hn, hl, hg]
-            · simp only [hg, decide_false, Bool.false_eq_true, if_false, pure, Except.pure] at h
+            simp only [hl] at h
+            cases hn : x.req.notify with
+            | none =>
+              simp only [hn, Bool.false_eq_true, if_false, pure, Except.pure] at h
               injection h with h; injection h with h1 h2; injection h2 with h2 h3
               subst h1; subst h2; subst h3
               refine ⟨rfl, rfl, (by constructor <;> intro hh <;> simp_all), ?_, by simp⟩
               intro c hc'
               simp at hc'; subst hc'
-              exact ⟨rfl, rfl, rfl, hc, rfl, by simp [intervalElapsed, hn, hl, hg]⟩
-        | some t =>
-          simp only [hl] at h
-          cases hn : x.req.notify with
-          | none =>
-            simp only [hn, Bool.false_eq_true, if_false, pure, Except.pure] at h
-            injection h with h; injection h with h1 h2; injection h2 with h2 h3
-            subst h1; subst h2; subst h3
-            refine ⟨rfl, rfl, (by constructor <;> intro hh <;> simp_all), ?_, by simp⟩
-            intro c hc'
-            simp at hc'; subst hc'
-            exact ⟨rfl, rfl, rfl, hc, rfl, by simp [intervalElapsed, hn]⟩
-          | some n =>
-            simp only [hn] at h
-            by_cases hg : t + n > nowIts s.core.utcMs
-            · simp only [hg, decide_true, if_true, pure, Except.pure] at h
-              injection h with h; injection h with h1 h2; injection h2 with h2 h3
-              subst h1; subst h2; subst h3
-              refine ⟨rfl, rfl, (by constructor <;> intro hh <;> simp_all), by simp, fun _ _ => Or.inr ?_⟩
-              simp [intervalElapsed, hn, hl, hg]
-            · simp only [hg, decide_false, Bool.false_eq_true, if_false, pure, Except.pure] at h
+              exact ⟨rfl, rfl, rfl, hc, rfl, by simp [intervalElapsed, hn], hxm⟩
+            | some n =>
+              simp only [hn] at h
+              by_cases hg : nowIts s.core.utcMs + n > nowIts s.core.utcMs
+              · simp only [hg, decide_true, if_true, pure, Except.pure] at h
+                injection h with h; injection h with h1 h2; injection h2 with h2 h3
+                subst h1; subst h2; subst h3
+                refine ⟨rfl, rfl, (by constructor <;> intro hh <;> simp_all), by simp, fun _ _ => Or.inr (Or.inl ?_)⟩
+                simp [intervalElapsed, hn, hl, hg]
+              · simp only [hg, decide_false, Bool.false_eq_true, if_false, pure, Except.pure] at h
+                injection h with h; injection h with h1 h2; injection h2 with h2 h3
+                subst h1; subst h2; subst h3
+                refine ⟨rfl, rfl, (by constructor <;> intro hh <;> simp_all), ?_, by simp⟩
+                intro c hc'
+                simp at hc'; subst hc'
+                exact ⟨rfl, rfl, rfl, hc, rfl, by simp [intervalElapsed, hn, hl, hg], hxm⟩
+          | some t =>
+            simp only [hl] at h
+            cases hn : x.req.notify with
+            | none =>
+              simp only [hn, Bool.false_eq_true, if_false, pure, Except.pure] at h
               injection h with h; injection h with h1 h2; injection h2 with h2 h3
               subst h1; subst h2; subst h3
               refine ⟨rfl, rfl, (by constructor <;> intro hh <;> simp_all), ?_, by simp⟩
               intro c hc'
               simp at hc'; subst hc'
-              exact ⟨rfl, rfl, rfl, hc, rfl, by simp [intervalElapsed, hn, hl, hg]⟩
+              exact ⟨rfl, rfl, rfl, hc, rfl, by simp [intervalElapsed, hn], hxm⟩
+            | some n =>
+              simp only [hn] at h
+              by_cases hg : t + n > nowIts s.core.utcMs
+              · simp only [hg, decide_true, if_true, pure, Except.pure] at h
+                injection h with h; injection h with h1 h2; injection h2 with h2 h3
+                subst h1; subst h2; subst h3
+                refine ⟨rfl, rfl, (by constructor <;> intro hh <;> simp_all), by simp, fun _ _ => Or.inr (Or.inl ?_)⟩
+                simp [intervalElapsed, hn, hl, hg]
+              · simp only [hg, decide_false, Bool.false_eq_true, if_false, pure, Except.pure] at h
+                injection h with h; injection h with h1 h2; injection h2 with h2 h3
+                subst h1; subst h2; subst h3
+                refine ⟨rfl, rfl, (by constructor <;> intro hh <;> simp_all), ?_, by simp⟩
+                intro c hc'
+                simp at hc'; subst hc'
+                exact ⟨rfl, rfl, rfl, hc, rfl, by simp [intervalElapsed, hn, hl, hg], hxm⟩
+        · have hmem' : s.subs.contains x = false := by simpa using hmem
+          have hxm : x ∉ s.subs := fun hh => hmem ((contains_iff_mem _ _).mpr hh)
+          simp only [hmem', Bool.not_false, if_true, pure, Except.pure] at h
+          injection h with h; injection h with h1 h2; injection h2 with h2 h3
+          subst h1; subst h2; subst h3
+          refine ⟨rfl, rfl, (by constructor <;> intro hh <;> simp_all), by simp, fun _ _ => Or.inr (Or.inr hxm)⟩
   · have hc' : s.core.consumers.contains x.req.app = false := by simpa using hc
     simp only [hc', Bool.not_false, if_true, pure, Except.pure] at h
     injection h with h; injection h with h1 h2; injection h2 with h2 h3
@@ -116,91 +129,153 @@ theorem foldl_erase_subset (vs : List Sub) : ∀ l : List Sub, ∀ y ∈ vs.fold
     simp only [List.foldl_cons] at h
     exact List.mem_of_mem_erase (ih _ y h)
 
-theorem attendLoop_spec (xs : List Sub) : ∀ (s : SSt) (calls : List Call) (rm : List Sub) (s' : SSt) (calls' : List Call)
-    (e : Option Err), attendLoop s xs calls rm = (s', calls', e) →
-    s'.core = s.core ∧ (∀ y ∈ s'.subs, y ∈ s.subs) ∧
-    (∀ c ∈ calls', c ∈ calls ∨ ∃ x ∈ xs, c.cb = x.cb ∧ c.app = x.req.app ∧
-        s.core.consumers.contains x.req.app = true ∧ subMatches (s.core.db.rows.map (·.2)) x.req = .ok (some c.objs)) := by
+theorem foldl_removeSub_mem (vs : List Sub) (s : SSt) : ∀ y ∈ (vs.foldl removeSub s).subs, y ∈ s.subs := by
+  intro y hy
+  rw [foldl_removeSub_subs] at hy
+  exact foldl_erase_subset vs _ y hy
+
+/-! ## what re-entrant callbacks and the attendance can change: the store never, subscriptions and consumers only shrink -/
+
+/-- `s'` has the same store and clock as `s`, no new subscription and no new consumer -/
+def Shrinks (s s' : SSt) : Prop :=
+  s'.core.db = s.core.db ∧ s'.core.utcMs = s.core.utcMs ∧ (∀ y ∈ s'.subs, y ∈ s.subs) ∧
+  (∀ a, s'.core.consumers.contains a = true → s.core.consumers.contains a = true)
+
+theorem Shrinks.refl (s : SSt) : Shrinks s s := ⟨rfl, rfl, fun _ h => h, fun _ h => h⟩
+
+theorem Shrinks.trans {a b c : SSt} (h1 : Shrinks a b) (h2 : Shrinks b c) : Shrinks a c :=
+  ⟨h2.1.trans h1.1, h2.2.1.trans h1.2.1, fun y hy => h1.2.2.1 y (h2.2.2.1 y hy), fun x hx => h1.2.2.2 x (h2.2.2.2 x hx)⟩
+
+theorem shrinks_foldl_removeSub (vs : List Sub) (s : SSt) : Shrinks s (vs.foldl removeSub s) := by
+  refine ⟨by rw [foldl_removeSub_core], by rw [foldl_removeSub_core], foldl_removeSub_mem vs s, ?_⟩
+  intro a ha; rw [foldl_removeSub_core] at ha; exact ha
+
+theorem shrinks_victims (s : SSt) (vs : List Sub) :
+    Shrinks s (if vs.isEmpty then (s, (1 : Nat)) else (vs.foldl removeSub s, 0)).1 := by
+  split
+  · exact Shrinks.refl s
+  · exact shrinks_foldl_removeSub _ s
+
+theorem shrinks_doUnsub (u : Bool) (s : SSt) (app : Nat) (t : Option (SubReq × Nat)) : Shrinks s (doUnsub u s app t).1 := by
+  unfold doUnsub
+  split
+  · exact Shrinks.refl s
+  · cases t with
+    | none => exact Shrinks.refl s
+    | some p => exact shrinks_victims s _
+
+theorem setDiscard_contains (l : List Nat) (x a : Nat) (h : (setDiscard l x).contains a = true) : l.contains a = true := by
+  simp only [setDiscard, List.contains_iff_mem, List.mem_filter] at h ⊢
+  exact h.1
+
+theorem step_dereg (cfg : Cfg) (c : St) (app : Nat) :
+    (step cfg c (.deregConsumer app)).1.db = c.db ∧ (step cfg c (.deregConsumer app)).1.utcMs = c.utcMs ∧
+    (∀ a, (step cfg c (.deregConsumer app)).1.consumers.contains a = true → c.consumers.contains a = true) := by
+  simp only [step]
+  split
+  · exact ⟨rfl, rfl, fun a ha => setDiscard_contains _ _ _ ha⟩
+  · exact ⟨rfl, rfl, fun _ h => h⟩
+
+theorem shrinks_doDereg (cfg : Cfg) (s : SSt) (app : Nat) : Shrinks s (doDereg cfg s app).1 := by
+  unfold doDereg
+  obtain ⟨h1, h2, h3⟩ := step_dereg cfg s.core app
+  have hb : Shrinks s { s with core := (step cfg s.core (.deregConsumer app)).1 } := ⟨h1, h2, fun _ h => h, h3⟩
+  simp only
+  split
+  · exact hb.trans (shrinks_foldl_removeSub _ _)
+  · exact hb
+
+theorem shrinks_applyAct (cfg : Cfg) (u : Bool) (s : SSt) (a : CbAct) : Shrinks s (applyAct cfg u s a) := by
+  cases a with
+  | none => exact Shrinks.refl s
+  | raises => exact Shrinks.refl s
+  | unsub app t => exact shrinks_doUnsub u s app t
+  | dereg app => exact shrinks_doDereg cfg s app
+
+theorem shrinks_acts (cfg : Cfg) (u : Bool) (β : Nat → CbAct) (cs : List Call) : ∀ s : SSt,
+    Shrinks s (cs.foldl (fun st c => applyAct cfg u st (β c.cb)) s) := by
+  induction cs with
+  | nil => intro s; exact Shrinks.refl s
+  | cons c cs ih => intro s; exact (shrinks_applyAct cfg u s (β c.cb)).trans (ih _)
+
+theorem shrinks_attendOne (s : SSt) (x : Sub) (s1 : SSt) (cs : List Call) (d : Bool)
+    (h : attendOne s x = .ok (s1, cs, d)) : Shrinks s s1 := by
+  obtain ⟨h1, h2, _⟩ := attendOne_spec s x s1 cs d h
+  exact ⟨by rw [h1], by rw [h1], fun y hy => by rw [← h2]; exact hy, fun a ha => by rw [← h1]; exact ha⟩
+
+/-- a callback `c` is justified by a subscription stored in `s` whose consumer is registered in `s`, evaluated on `rows` -/
+def Justified (s : SSt) (rows : List Record) (c : Call) : Prop :=
+  ∃ x ∈ s.subs, c.cb = x.cb ∧ c.app = x.req.app ∧ s.core.consumers.contains x.req.app = true ∧
+    subMatches rows x.req = .ok (some c.objs)
+
+theorem Justified.mono {s s' : SSt} (h : Shrinks s s') {rows : List Record} {c : Call} (hj : Justified s' rows c) :
+    Justified s rows c := by
+  obtain ⟨x, hx, a1, a2, a3, a4⟩ := hj
+  exact ⟨x, h.2.2.1 x hx, a1, a2, h.2.2.2 _ a3, a4⟩
+
+/-- the loop: store untouched, subscriptions and consumers only shrink, every new callback is justified by a
+subscription that is stored — and whose consumer is registered — when the loop reaches it (hence also at loop entry) -/
+theorem attendLoop_spec (cfg : Cfg) (u : Bool) (β : Nat → CbAct) (xs : List Sub) : ∀ (s : SSt) (calls : List Call) (rm : List Sub),
+    Shrinks s (attendLoop cfg u β s xs calls rm).1 ∧
+    (∀ c ∈ (attendLoop cfg u β s xs calls rm).2, c ∈ calls ∨ Justified s (s.core.db.rows.map (·.2)) c) := by
   induction xs with
   | nil =>
-    intro s calls rm s' calls' e h
-    simp only [attendLoop] at h
-    injection h with h1 h2; injection h2 with h2 h3
-    subst h1; subst h2
-    refine ⟨foldl_removeSub_core rm s, ?_, fun c hc => Or.inl hc⟩
-    intro y hy
-    rw [foldl_removeSub_subs] at hy
-    exact foldl_erase_subset rm _ y hy
+    intro s calls rm
+    simp only [attendLoop]
+    exact ⟨shrinks_foldl_removeSub rm s, fun c hc => Or.inl hc⟩
   | cons x xs ih =>
-    intro s calls rm s' calls' e h
-    simp only [attendLoop] at h
+    intro s calls rm
+    simp only [attendLoop]
     cases ho : attendOne s x with
-    | error er =>
-      simp only [ho] at h
-      injection h with h1 h2; injection h2 with h2 h3
-      subst h1; subst h2
-      exact ⟨rfl, fun y hy => hy, fun c hc => Or.inl hc⟩
+    | error er => simp only; exact ih s calls rm
     | ok res =>
       obtain ⟨s1, cs, d⟩ := res
-      simp only [ho] at h
-      obtain ⟨hcore, hsubs, _, hcs, _⟩ := attendOne_spec s x s1 cs d ho
-      obtain ⟨i1, i2, i3⟩ := ih s1 _ _ s' calls' e h
-      refine ⟨by rw [i1, hcore], fun y hy => by rw [← hsubs]; exact i2 y hy, ?_⟩
+      simp only
+      have hsh1 := shrinks_attendOne s x s1 cs d ho
+      have hsh2 := hsh1.trans (shrinks_acts cfg u β cs s1)
+      obtain ⟨_, _, _, hcs, _⟩ := attendOne_spec s x s1 cs d ho
+      obtain ⟨i1, i2⟩ := ih (cs.foldl (fun st c => applyAct cfg u st (β c.cb)) s1) (calls ++ cs) (if d then rm ++ [x] else rm)
+      refine ⟨hsh2.trans i1, ?_⟩
       intro c hc
-      rcases i3 c hc with h1 | ⟨y, hy, h2⟩
+      rcases i2 c hc with h1 | h2
       · rcases List.mem_append.mp h1 with h1 | h1
         · exact Or.inl h1
-        · obtain ⟨_, a1, a2, a3, a4, _⟩ := hcs c h1
-          exact Or.inr ⟨x, by simp, a1, a2, a3, a4⟩
-      · rw [hcore] at h2
-        exact Or.inr ⟨y, by simp [hy], h2⟩
+        · obtain ⟨_, a1, a2, a3, a4, _, a6⟩ := hcs c h1
+          exact Or.inr ⟨x, a6, a1, a2, a3, a4⟩
+      · rw [hsh2.1] at h2
+        exact Or.inr (Justified.mono hsh2 h2)
 
 /-- every callback of an attendance is justified by a stored subscription on the current store -/
-theorem attend_spec (s s' : SSt) (calls : List Call) (e : Option Err) (h : attend s = (s', calls, e)) :
-    s'.core = s.core ∧ (∀ y ∈ s'.subs, y ∈ s.subs) ∧
-    (∀ c ∈ calls, ∃ x ∈ s.subs, c.cb = x.cb ∧ c.app = x.req.app ∧
-        s.core.consumers.contains x.req.app = true ∧ subMatches (s.core.db.rows.map (·.2)) x.req = .ok (some c.objs)) := by
-  obtain ⟨h1, h2, h3⟩ := attendLoop_spec s.subs s [] [] s' calls e h
-  refine ⟨h1, h2, fun c hc => ?_⟩
-  rcases h3 c hc with h | h
+theorem attend_spec (cfg : Cfg) (u : Bool) (β : Nat → CbAct) (s : SSt) :
+    Shrinks s (attend cfg u β s).1 ∧ (∀ c ∈ (attend cfg u β s).2, Justified s (s.core.db.rows.map (·.2)) c) := by
+  obtain ⟨h1, h2⟩ := attendLoop_spec cfg u β s.subs s [] []
+  refine ⟨h1, fun c hc => ?_⟩
+  rcases h2 c hc with h | h
   · simp at h
   · exact h
 
-/-- a callback `c` made while the store/registries are `core` is justified by a subscription among `xs` -/
-def Justified (core : St) (xs : List Sub) (c : Call) : Prop :=
-  ∃ x ∈ xs, c.cb = x.cb ∧ c.app = x.req.app ∧ core.consumers.contains x.req.app = true ∧
-    subMatches (core.db.rows.map (·.2)) x.req = .ok (some c.objs)
+theorem step_add_consumers (cfg : Cfg) (c : St) (app : Nat) (ts : Int) (loc : Loc) (obj : JVal) (v : Int) :
+    (step cfg c (.add app ts loc obj v)).1.consumers = c.consumers := by
+  simp only [step]
+  split
+  · rfl
+  · split <;> rfl
 
-theorem step_core_other (cfg : Cfg) (u : Bool) (s : SSt) (op : Op)
-    (h1 : ∀ a t l o v, op ≠ .add a t l o v) (h2 : ∀ a, op ≠ .deregConsumer a) :
-    sstep cfg u s (.core op) = ({ s with core := (step cfg s.core op).1 }, { out := (step cfg s.core op).2, calls := [] }) := by
-  cases op with
-  | add a t l o v => exact absurd rfl (h1 a t l o v)
-  | deregConsumer a => exact absurd rfl (h2 a)
-  | _ => rfl
-
-/-- every callback made by a step is justified by a subscription that was stored before the step, evaluated on the
-store as it is after the step -/
-theorem sstep_calls (cfg : Cfg) (u : Bool) (s : SSt) (op : SOp) :
-    ∀ c ∈ (sstep cfg u s op).2.calls, Justified (sstep cfg u s op).1.core s.subs c := by
+/-- every callback made by a step is justified by a subscription that was stored — its consumer registered — before
+the step, evaluated on the store as it is after the step -/
+theorem sstep_calls (cfg : Cfg) (u : Bool) (β : Nat → CbAct) (s : SSt) (op : SOp) :
+    ∀ c ∈ (sstep cfg u β s op).2.calls, Justified s ((sstep cfg u β s op).1.core.db.rows.map (·.2)) c := by
   cases op with
   | subscribe r cb =>
     simp only [sstep]
     split <;> simp
-  | unsubscribe app target =>
-    simp only [sstep]
-    split
-    · simp
-    · split
-      · simp
-      · split <;> (split <;> simp)
+  | unsubscribe app target => simp [sstep]
   | attend =>
     simp only [sstep]
-    cases ha : attend s with
-    | mk s1 rest =>
-      obtain ⟨calls, e⟩ := rest
-      obtain ⟨h1, _, h3⟩ := attend_spec s s1 calls e ha
-      cases e <;> (simp only; intro c hc; rw [h1]; exact h3 c hc)
+    obtain ⟨h1, h3⟩ := attend_spec cfg u β s
+    intro c hc
+    rw [h1.1]
+    exact h3 c hc
   | core op =>
     cases op with
     | add app ts loc obj validity =>
@@ -208,11 +283,12 @@ theorem sstep_calls (cfg : Cfg) (u : Bool) (s : SSt) (op : SOp) :
       split
       · simp
       · split
-        · cases ha : attend { s with core := (step cfg s.core (.add app ts loc obj validity)).1 } with
-          | mk s2 rest =>
-            obtain ⟨calls, e⟩ := rest
-            obtain ⟨h1, _, h3⟩ := attend_spec _ s2 calls e ha
-            cases e <;> (simp only; intro c hc; rw [h1]; exact h3 c hc)
+        · obtain ⟨h1, h3⟩ := attend_spec cfg u β { s with core := (step cfg s.core (.add app ts loc obj validity)).1 }
+          intro c hc
+          simp only at hc ⊢
+          rw [h1.1]
+          obtain ⟨x, hx, a1, a2, a3, a4⟩ := h3 c hc
+          exact ⟨x, hx, a1, a2, by simpa [step_add_consumers] using a3, a4⟩
         · simp
     | deregConsumer app => simp [sstep]
     | regProvider a p => simp [sstep]
@@ -224,14 +300,9 @@ theorem sstep_calls (cfg : Cfg) (u : Bool) (s : SSt) (op : SOp) :
     | maintain => simp [sstep]
     | advance ms => simp [sstep]
 
-theorem foldl_removeSub_mem (vs : List Sub) (s : SSt) : ∀ y ∈ (vs.foldl removeSub s).subs, y ∈ s.subs := by
-  intro y hy
-  rw [foldl_removeSub_subs] at hy
-  exact foldl_erase_subset vs _ y hy
-
 /-- a step stores at most one new subscription: the one of a `subscribe` operation -/
-theorem sstep_subs (cfg : Cfg) (u : Bool) (s : SSt) (op : SOp) :
-    ∀ y ∈ (sstep cfg u s op).1.subs, y ∈ s.subs ∨ ∃ r cb, op = .subscribe r cb ∧ y = { req := r, cb := cb } := by
+theorem sstep_subs (cfg : Cfg) (u : Bool) (β : Nat → CbAct) (s : SSt) (op : SOp) :
+    ∀ y ∈ (sstep cfg u β s op).1.subs, y ∈ s.subs ∨ ∃ r cb, op = .subscribe r cb ∧ y = { req := r, cb := cb } := by
   cases op with
   | subscribe r cb =>
     simp only [sstep]
@@ -244,18 +315,10 @@ theorem sstep_subs (cfg : Cfg) (u : Bool) (s : SSt) (op : SOp) :
       · exact Or.inr ⟨r, cb, rfl, h⟩
   | unsubscribe app target =>
     simp only [sstep]
-    split
-    · intro y hy; exact Or.inl hy
-    · split
-      · intro y hy; exact Or.inl hy
-      · split <;> (split <;> intro y hy <;> first | exact Or.inl hy | exact Or.inl (foldl_removeSub_mem _ _ y hy))
+    intro y hy; exact Or.inl ((shrinks_doUnsub u s app target).2.2.1 y hy)
   | attend =>
     simp only [sstep]
-    cases ha : attend s with
-    | mk s1 rest =>
-      obtain ⟨calls, e⟩ := rest
-      obtain ⟨_, h2, _⟩ := attend_spec s s1 calls e ha
-      cases e <;> (simp only; intro y hy; exact Or.inl (h2 y hy))
+    intro y hy; exact Or.inl ((attend_spec cfg u β s).1.2.2.1 y hy)
   | core op =>
     cases op with
     | add app ts loc obj validity =>
@@ -263,17 +326,12 @@ theorem sstep_subs (cfg : Cfg) (u : Bool) (s : SSt) (op : SOp) :
       split
       · intro y hy; exact Or.inl hy
       · split
-        · cases ha : attend { s with core := (step cfg s.core (.add app ts loc obj validity)).1 } with
-          | mk s2 rest =>
-            obtain ⟨calls, e⟩ := rest
-            obtain ⟨_, h2, _⟩ := attend_spec _ s2 calls e ha
-            cases e <;> (simp only; intro y hy; exact Or.inl (h2 y hy))
+        · intro y hy
+          exact Or.inl ((attend_spec cfg u β { s with core := (step cfg s.core (.add app ts loc obj validity)).1 }).1.2.2.1 y hy)
         · intro y hy; exact Or.inl hy
     | deregConsumer app =>
       simp only [sstep]
-      split
-      · intro y hy; exact Or.inl (foldl_removeSub_mem _ { s with core := (step cfg s.core (.deregConsumer app)).1 } y hy)
-      · intro y hy; exact Or.inl hy
+      intro y hy; exact Or.inl ((shrinks_doDereg cfg s app).2.2.1 y hy)
     | regProvider a p => intro y hy; exact Or.inl hy
     | deregProvider a => intro y hy; exact Or.inl hy
     | regConsumer a p => intro y hy; exact Or.inl hy
@@ -291,8 +349,8 @@ def noResubscribe (cb : Nat) (ops : List SOp) : Prop :=
   ∀ op ∈ ops, ∀ r, op ≠ .subscribe r cb
 
 /-- once no stored subscription carries callback `cb`, that callback is never invoked again -/
-theorem no_call_without_subscription (cfg : Cfg) (u : Bool) (cb : Nat) (ops : List SOp) : ∀ s : SSt,
-    cb ∉ cbsOf s → noResubscribe cb ops → ∀ o ∈ (srun cfg u s ops).2, ∀ c ∈ o.calls, c.cb ≠ cb := by
+theorem no_call_without_subscription (cfg : Cfg) (u : Bool) (β : Nat → CbAct) (cb : Nat) (ops : List SOp) : ∀ s : SSt,
+    cb ∉ cbsOf s → noResubscribe cb ops → ∀ o ∈ (srun cfg u β s ops).2, ∀ c ∈ o.calls, c.cb ≠ cb := by
   induction ops with
   | nil => intro s _ _ o ho; simp [srun] at ho
   | cons op ops ih =>
@@ -300,16 +358,16 @@ theorem no_call_without_subscription (cfg : Cfg) (u : Bool) (cb : Nat) (ops : Li
     simp only [srun, List.mem_cons] at ho
     rcases ho with ho | ho
     · subst ho
-      obtain ⟨x, hx, h1, _⟩ := sstep_calls cfg u s op c hc
+      obtain ⟨x, hx, h1, _⟩ := sstep_calls cfg u β s op c hc
       intro e
       apply hn
       simp only [cbsOf, List.mem_map]
       exact ⟨x, hx, by rw [← h1, e]⟩
-    · refine ih (sstep cfg u s op).1 ?_ (fun o' ho' => hr o' (List.mem_cons_of_mem _ ho')) o ho c hc
+    · refine ih (sstep cfg u β s op).1 ?_ (fun o' ho' => hr o' (List.mem_cons_of_mem _ ho')) o ho c hc
       intro hm
       simp only [cbsOf, List.mem_map] at hm
       obtain ⟨y, hy, hcb⟩ := hm
-      rcases sstep_subs cfg u s op y hy with h | ⟨r, cb', hop, hy'⟩
+      rcases sstep_subs cfg u β s op y hy with h | ⟨r, cb', hop, hy'⟩
       · exact hn (by simp only [cbsOf, List.mem_map]; exact ⟨y, h, hcb⟩)
       · subst hy'
         simp only at hcb
@@ -416,10 +474,160 @@ theorem attendOne_others (s : SSt) (x : Sub) (s1 : SSt) (cs : List Call) (d : Bo
         obtain ⟨rfl, _, _⟩ := h; rfl
       | some objs =>
         simp only [hm, bind, Except.bind] at h
-        cases hl : lcGet s.lastChecked x <;> cases hn : x.req.notify <;> simp only [hl, hn] at h <;>
-          (try split at h) <;>
-          (simp only [pure, Except.pure, Except.ok.injEq, Prod.mk.injEq, Bool.false_eq_true, if_false] at h
-           obtain ⟨rfl, _, _⟩ := h
-           simp [lcGet_lcSet_other, hy])
+        by_cases hmem : s.subs.contains x = true
+        · simp only [hmem, Bool.not_true, Bool.false_eq_true, if_false] at h
+          cases hl : lcGet s.lastChecked x <;> cases hn : x.req.notify <;> simp only [hl, hn] at h <;>
+            (try split at h) <;>
+            (simp only [pure, Except.pure, Except.ok.injEq, Prod.mk.injEq, Bool.false_eq_true, if_false] at h
+             obtain ⟨rfl, _, _⟩ := h
+             simp [lcGet_lcSet_other, hy])
+        · have hmem' : s.subs.contains x = false := by simpa using hmem
+          simp only [hmem', Bool.not_false, if_true, pure, Except.pure, Except.ok.injEq, Prod.mk.injEq] at h
+          obtain ⟨rfl, _, _⟩ := h; rfl
+
+/-! ## completeness of an attendance -/
+
+theorem attendLoop_calls_mono (cfg : Cfg) (u : Bool) (β : Nat → CbAct) (xs : List Sub) : ∀ (s : SSt) (calls : List Call) (rm : List Sub),
+    ∀ c ∈ calls, c ∈ (attendLoop cfg u β s xs calls rm).2 := by
+  induction xs with
+  | nil => intro s calls rm c hc; exact hc
+  | cons x xs ih =>
+    intro s calls rm c hc
+    simp only [attendLoop]
+    cases attendOne s x with
+    | error e => exact ih s calls rm c hc
+    | ok res =>
+      obtain ⟨s1, cs, d⟩ := res
+      exact ih _ _ _ c (List.mem_append_left _ hc)
+
+/-- a stored subscription of a registered consumer with something to notify and its interval elapsed IS notified -/
+theorem attendOne_fires (s : SSt) (x : Sub) (objs : List Record) (hmem : x ∈ s.subs)
+    (hreg : s.core.consumers.contains x.req.app = true)
+    (hm : subMatches (s.core.db.rows.map (·.2)) x.req = .ok (some objs)) (hi : intervalElapsed s x = true) :
+    ∃ s1, attendOne s x = .ok (s1, [{ cb := x.cb, app := x.req.app, objs := objs }], false) := by
+  have hc : s.subs.contains x = true := (contains_iff_mem _ _).mpr hmem
+  unfold attendOne
+  simp only [hreg, Bool.not_true, Bool.false_eq_true, if_false, hm, bind, Except.bind, hc]
+  unfold intervalElapsed at hi
+  cases hl : lcGet s.lastChecked x <;> cases hn : x.req.notify <;> simp only [hl, hn, Option.getD] at hi ⊢
+  · exact ⟨_, rfl⟩
+  · simp only [Bool.not_eq_true', decide_eq_false_iff_not] at hi
+    simp only [hi, decide_false, Bool.false_eq_true, if_false]
+    exact ⟨_, rfl⟩
+  · exact ⟨_, rfl⟩
+  · simp only [Bool.not_eq_true', decide_eq_false_iff_not] at hi
+    simp only [hi, decide_false, Bool.false_eq_true, if_false]
+    exact ⟨_, rfl⟩
+
+/-- the callback only records or raises: it does not re-enter the LDM -/
+def passive (β : Nat → CbAct) (cb : Nat) : Prop := β cb = .none ∨ β cb = .raises
+
+theorem applyAct_passive (cfg : Cfg) (u : Bool) (β : Nat → CbAct) (s : SSt) (cb : Nat) (h : passive β cb) :
+    applyAct cfg u s (β cb) = s := by
+  rcases h with h | h <;> rw [h] <;> rfl
+
+theorem acts_passive (cfg : Cfg) (u : Bool) (β : Nat → CbAct) (cb : Nat) (h : passive β cb) : ∀ (cs : List Call) (s : SSt),
+    (∀ c ∈ cs, c.cb = cb) → cs.foldl (fun st c => applyAct cfg u st (β c.cb)) s = s := by
+  intro cs
+  induction cs with
+  | nil => intro s _; rfl
+  | cons c cs ih =>
+    intro s hcs
+    simp only [List.foldl_cons]
+    rw [hcs c (by simp), applyAct_passive cfg u β s cb h]
+    exact ih s (fun c' hc' => hcs c' (by simp [hc']))
+
+theorem intervalElapsed_congr (s s1 : SSt) (x : Sub) (h1 : s1.core = s.core) (h2 : lcGet s1.lastChecked x = lcGet s.lastChecked x) :
+    intervalElapsed s1 x = intervalElapsed s x := by
+  unfold intervalElapsed
+  rw [h1, h2]
+
+/-- **completeness of the loop**: a subscription of the snapshot that is stored, whose consumer is registered, that has
+something to notify and whose interval has elapsed is called back with exactly that — whatever the other
+subscriptions do (ordering exceptions, raising callbacks), as long as their callbacks do not re-enter the LDM -/
+theorem attendLoop_complete (cfg : Cfg) (u : Bool) (β : Nat → CbAct) (x : Sub) (objs : List Record) : ∀ (xs : List Sub) (s : SSt)
+    (calls : List Call) (rm : List Sub),
+    (∀ y ∈ xs, passive β y.cb) → x ∈ xs → x ∈ s.subs → s.core.consumers.contains x.req.app = true →
+    subMatches (s.core.db.rows.map (·.2)) x.req = .ok (some objs) → intervalElapsed s x = true →
+    ∃ c ∈ (attendLoop cfg u β s xs calls rm).2, c.cb = x.cb ∧ c.app = x.req.app ∧ c.objs = objs := by
+  intro xs
+  induction xs with
+  | nil => intro s calls rm _ hx; simp at hx
+  | cons y xs ih =>
+    intro s calls rm hp hx hmem hreg hm hi
+    simp only [attendLoop]
+    by_cases hyx : y = x
+    · subst hyx
+      obtain ⟨s1, h1⟩ := attendOne_fires s y objs hmem hreg hm hi
+      rw [h1]
+      simp only
+      refine ⟨{ cb := y.cb, app := y.req.app, objs := objs }, ?_, rfl, rfl, rfl⟩
+      exact attendLoop_calls_mono cfg u β xs _ _ _ _ (by simp)
+    · have hx' : x ∈ xs := by
+        rcases List.mem_cons.mp hx with h | h
+        · exact absurd h.symm hyx
+        · exact h
+      have hp' : ∀ z ∈ xs, passive β z.cb := fun z hz => hp z (by simp [hz])
+      cases ho : attendOne s y with
+      | error e => simp only; exact ih s calls rm hp' hx' hmem hreg hm hi
+      | ok res =>
+        obtain ⟨s1, cs, d⟩ := res
+        simp only
+        obtain ⟨hcore, hsubs, _, hcs, _⟩ := attendOne_spec s y s1 cs d ho
+        have hpass := acts_passive cfg u β y.cb (hp y (by simp)) cs s1 (fun c hc => (hcs c hc).2.1)
+        rw [hpass]
+        have hlc := attendOne_others s y s1 cs d ho x (fun e => hyx e.symm)
+        exact ih s1 _ _ hp' hx' (by rw [hsubs]; exact hmem) (by rw [hcore]; exact hreg) (by rw [hcore]; exact hm)
+          (by rw [intervalElapsed_congr s s1 x hcore hlc]; exact hi)
+
+/-- with passive callbacks the loop leaves the subscription list alone until the removals -/
+theorem attendLoop_passive_state (cfg : Cfg) (u : Bool) (β : Nat → CbAct) : ∀ (xs : List Sub) (s : SSt) (calls : List Call) (rm : List Sub),
+    (∀ y ∈ xs, passive β y.cb) →
+    ∃ s' : SSt, s'.subs = s.subs ∧ s'.core = s.core ∧
+      (attendLoop cfg u β s xs calls rm).1 =
+        (rm ++ xs.filter (fun y => !s.core.consumers.contains y.req.app)).foldl removeSub s' := by
+  intro xs
+  induction xs with
+  | nil => intro s calls rm _; exact ⟨s, rfl, rfl, by simp [attendLoop]⟩
+  | cons y xs ih =>
+    intro s calls rm hp
+    have hp' : ∀ z ∈ xs, passive β z.cb := fun z hz => hp z (by simp [hz])
+    simp only [attendLoop]
+    cases ho : attendOne s y with
+    | error e =>
+      simp only
+      obtain ⟨s', a1, a2, a3⟩ := ih s calls rm hp'
+      refine ⟨s', a1, a2, ?_⟩
+      rw [a3]
+      -- an error can only come from a registered consumer's subscription
+      have hreg : s.core.consumers.contains y.req.app = true := by
+        cases hc : s.core.consumers.contains y.req.app with
+        | true => rfl
+        | false =>
+          have : attendOne s y = .ok (s, [], true) := by
+            unfold attendOne; simp only [hc, Bool.not_false, if_true]; rfl
+          rw [this] at ho; cases ho
+      have hreg' : y.req.app ∈ s.core.consumers := by simpa using hreg
+      simp [hreg']
+    | ok res =>
+      obtain ⟨s1, cs, d⟩ := res
+      simp only
+      obtain ⟨hcore, hsubs, hd, hcs, _⟩ := attendOne_spec s y s1 cs d ho
+      rw [acts_passive cfg u β y.cb (hp y (by simp)) cs s1 (fun c hc => (hcs c hc).2.1)]
+      obtain ⟨s', a1, a2, a3⟩ := ih s1 (calls ++ cs) (if d then rm ++ [y] else rm) hp'
+      refine ⟨s', by rw [a1, hsubs], by rw [a2, hcore], ?_⟩
+      rw [a3, hcore]
+      cases d with
+      | true =>
+        have h0 : s.core.consumers.contains y.req.app = false := hd.mp rfl
+        have h0' : y.req.app ∉ s.core.consumers := by simpa using h0
+        simp [h0']
+      | false =>
+        have : s.core.consumers.contains y.req.app = true := by
+          cases hc : s.core.consumers.contains y.req.app with
+          | true => rfl
+          | false => exact absurd (hd.mpr hc) (by simp)
+        have h0' : y.req.app ∈ s.core.consumers := by simpa using this
+        simp [h0']
 
 end FlexModel.Ldm
